@@ -569,7 +569,7 @@ impl Drop for Server { fn drop(&mut self) { let _ = self.child.kill(); let _ = s
 // the check proper
 // =====================================================================================
 const HEADER: &str = r#"From ZV.Common Require Import Base Run.
-From ZV.C19 Require Import Model ModelZo ModelPlainDir ModelMvOps ModelRoW ModelCases.
+From ZV.C19 Require Import Model ModelZo ModelPlainDir ModelMvOps ModelRoW ModelMvHist ModelCases.
 Open Scope N_scope.
 Definition case_t : Type := ModelCases.xcase.
 Definition ok (c : case_t) : bool := ModelCases.xcase_ok c.
@@ -578,14 +578,14 @@ Definition ok (c : case_t) : bool := ModelCases.xcase_ok c.
 struct Ctx {
     sum: Summary, shards: CoqShards, budget: usize, srv: Server, root: String, seq: u64, thorough: bool,
     cache: HashMap<u64, Value>, images: u64, coq_seen: std::collections::HashSet<u64>, proto: usize, n_mv: usize, n_ro: usize,
-    n_zo: usize, n_zosave: usize, n_row: usize, n_row_big: usize, n_plain: usize, n_mvops: usize, n_mmio: usize,
+    n_zo: usize, n_zosave: usize, n_row: usize, n_row_big: usize, n_plain: usize, n_mvops: usize, n_mmio: usize, n_units: usize,
 }
 fn dbg_case(cj: &Value) { if std::env::var("ZV_C19_DEBUG").is_ok() { let s = cj.to_string(); eprintln!("[{:?}] case {}", std::time::SystemTime::now().duration_since(std::time::UNIX_EPOCH).map(|d| d.as_millis() % 1000000).unwrap_or(0), &s[..s.len().min(400)]); } }
 fn fnv64(b: &[u8], mut h: u64) -> u64 { for x in b { h ^= *x as u64; h = h.wrapping_mul(0x100000001b3); } h }
 
 impl Ctx {
     /// Coq cases of the first generation (images, encodings, single-write protocol): they keep their own budget
-    fn old_used(&self) -> usize { self.shards.len() - (self.n_zo + 2 * self.n_zosave + self.n_row + self.n_plain + self.n_mvops + self.n_mmio) }
+    fn old_used(&self) -> usize { self.shards.len() - (self.n_zo + 2 * self.n_zosave + self.n_row + self.n_plain + self.n_mvops + self.n_mmio + self.n_units) }
     fn fresh_dir(&mut self, tag: &str) -> String {
         self.seq += 1;
         let d = format!("{}/{}{}", self.root, tag, self.seq);
@@ -880,6 +880,16 @@ fn mv_case<T: El>(cx: &mut Ctx, ic: usize, growth: f64, sow: bool, ops: &[Vec<u6
         }
     }
     for (a, b) in sync_segs { if b <= tr.len() && a < b { protocol_case(cx, &tr[a..b], "v.bin", "MmapVec::sync"); } }
+    // the whole traced history = create, then syncs and resize_to_capacity units over well-formed images
+    // (the decidable hypotheses of mv_traced_history_crash_safe)
+    {
+        let bytes: usize = tr.iter().map(|o| if let Op::Write { data, .. } = o { data.len() } else { 0 }).sum();
+        if bytes <= 9000 && cx.n_units < if cx.thorough { 300 } else { 36 } && cx.coq_seen.insert(fnv64(cj.to_string().as_bytes(), 0x756e)) {
+            cx.n_units += 1;
+            cx.shards.push(format!("(XMvUnits {} {} [{}])", es, ic, tr.iter().map(|o| fop_term(o, "v.bin")).collect::<Vec<_>>().join("; ")),
+                           json!({"cell": "mmapvec_units", "es": es, "ic": ic, "growth": growth, "sync_on_write": sow, "ops": ops}));
+        }
+    }
     // correspondence of the operation state machine: header fields and file length after every operation, the elements at the end
     {
         let vals = |count: u64, start: u64| -> String { coq_n_list((0..count).map(|i| (start.wrapping_add(i) & mask) as u128)) };
@@ -1297,7 +1307,7 @@ fn zipoffset_case(cx: &mut Ctx, recs: &[String], checksum: u8, exhaustive: bool)
     }
 }
 fn zo_coq_case(cx: &mut Ctx, img: &[u8]) {
-    if img.len() > 1600 || cx.n_zo >= if cx.thorough { 2500 } else { 260 } { return; }
+    if img.len() > 1600 || cx.n_zo >= if cx.thorough { 2500 } else { 240 } { return; }
     if !cx.coq_seen.insert(fnv64(img, 0x20)) { return; }
     let mut d = Disk::new(); d.insert("s.zob".into(), img.to_vec());
     let out = cx.observe("zipoffset_full", &json!({}), &d, "s.zob", false);
@@ -1417,7 +1427,7 @@ fn mmio_case(cx: &mut Ctx, ops: &[Value], initial: usize, exhaustive: bool) {
 fn run_one(cx: &mut Ctx, c: &Value) {
     let ex = c["exhaustive"].as_bool().unwrap_or(false);
     match c["cell"].as_str() {
-        Some("mmapvec") | Some("mmapvec_ops") => {
+        Some("mmapvec") | Some("mmapvec_ops") | Some("mmapvec_units") => {
             let ops: Vec<Vec<u64>> = c["ops"].as_array().map(|a| a.iter().map(|o| o.as_array().map(|x| x.iter().map(|y| y.as_u64().unwrap_or(0)).collect()).unwrap_or_default()).collect()).unwrap_or_default();
             run_mv(cx, c["es"].as_u64().unwrap_or(8) as usize, c["ic"].as_u64().unwrap_or(0) as usize, c["growth"].as_f64().unwrap_or(1.618), c["sync_on_write"].as_bool().unwrap_or(false), &ops, ex);
         }
@@ -1487,7 +1497,7 @@ pub fn run(args: &Args) {
         shards: CoqShards::new(HEADER, 150),
         budget: if args.thorough { 6000 } else { 1000 },
         srv, root: root.clone(), seq: 0, thorough: args.thorough, cache: HashMap::new(), images: 0, coq_seen: Default::default(), proto: 0, n_mv: 0, n_ro: 0,
-        n_zo: 0, n_zosave: 0, n_row: 0, n_row_big: 0, n_plain: 0, n_mvops: 0, n_mmio: 0,
+        n_zo: 0, n_zosave: 0, n_row: 0, n_row_big: 0, n_plain: 0, n_mvops: 0, n_mmio: 0, n_units: 0,
     };
     cx.sum.cell_status("MmapVec<u8>", "M+S"); cx.sum.cell_status("MmapVec<u64>", "M+S"); cx.sum.cell_status("ZReorderMap", "M+S");
     let mut rng = Rng::new(args.seed);
